@@ -11,6 +11,33 @@ import (
 func init() { checkers["C15"] = checkC15 }
 
 func checkC15(run *Run, res *Result) {
+	if run.Cfg.Prop == "C12" {
+		// the stream-ends scenario: a vBucket stream that ends with a re-openable status while Open() is still
+		// requesting the others must be re-opened (or the start-up must fail); a session that signals readiness and
+		// then runs without that vBucket "silently covers only part of its assignment"
+		readyN := map[int]int{}
+		for i := range run.Evs {
+			if e := &run.Evs[i]; e.K == journal.KReady && readyN[e.M] == 0 {
+				readyN[e.M] = e.N
+			}
+		}
+		tmp := &Result{Probes: map[string]int{}, Faults: map[string]int{}, DeathKind: res.DeathKind, FailStop: res.FailStop}
+		checkC12(run, tmp)
+		if res.Probes["end-during-open"] > 0 {
+			res.probe("stream-ended-during-open-judged")
+		}
+		for _, v := range tmp.Violations {
+			if v.Rule != "C12/R1-never-reopened" {
+				continue
+			}
+			var m, vb int
+			if _, err := fmt.Sscanf(v.Detail, "member %d vb %d:", &m, &vb); err == nil && readyN[m] > 0 && v.N < readyN[m] {
+				res.violate("C15", "R3-ready-with-partial-assignment", v.N, fmt.Sprintf("vb=%d", vb),
+					"member %d: the stream of vb %d ended with a re-openable status (event #%d) while Open() was still requesting the other vBuckets; the client signalled readiness (event #%d) and ran on without ever re-opening it", m, vb, v.N, readyN[m])
+			}
+		}
+		return
+	}
 	cfg := &run.Cfg
 	fault, faultVb := "none", -1
 	high := map[int]map[int]uint64{}
